@@ -1,4 +1,5 @@
 import Comdex.Lemmas.AmmMatchAccount
+import Comdex.Lemmas.AmmFindPriceBook
 /-!
 # C05 — Batch matching conserves coins and never fills an order beyond its limits
 
@@ -411,5 +412,146 @@ example : roundDust 300000000000000000 [7, 5] [12] = 2 ∧ sumInt [7, 5] = sumIn
 /-- `base_conserved_partial`'s hypothesis holds on a partially filled group of sells whose shares are worth something -/
 example : lossless 3 [{ d2s1 with amount := 30000, opn := 30000, offer := 30000 }, { d2s2 with amount := 30000, opn := 30000, offer := 30000 }]
     31000 100000000000000 = true := by decide
+
+
+/-! ## FindMatchPrice (the price of a pair's first batch) — modelled, no longer an input
+
+`T prec k` is the tick of index `k` at precision `prec` (`TickFromIndex`), `hiIdx prec` the index of `HighestTick`. -/
+
+/-- the order prices are ticks of precision `prec` (what `ValidateMsgLimitOrder` / `PriceLimits` establish) -/
+def OnGrid (os : List Order) (prec : Nat) : Prop :=
+  ∀ o ∈ os, ∃ k, k ≤ hiIdx prec ∧ o.price = ((T prec k : Nat) : Int)
+
+theorem findMatchPrice_some_inv (v : View) (prec : Nat) (p : Int) (h : findMatchPrice v prec = some p) :
+    ∃ hb ls, v.highestBuyPrice = some hb ∧ v.lowestSellPrice = some ls ∧ ls ≤ hb := by
+  unfold findMatchPrice at h
+  cases hhb : v.highestBuyPrice with
+  | none => rw [hhb] at h; cases h
+  | some hb =>
+    cases hls : v.lowestSellPrice with
+    | none => rw [hhb, hls] at h; cases h
+    | some ls =>
+      rw [hhb, hls] at h
+      simp only at h
+      by_cases hc : hb < ls
+      · rw [if_pos hc] at h; cases h
+      · exact ⟨hb, ls, rfl, rfl, by omega⟩
+
+/-- **a match price found by `FindMatchPrice` lies between the lowest sell and the highest buy price of the book
+(inclusive), is positive and on the tick grid** -/
+theorem found_price_in_spread (os : List Order) (prec : Nat) (hprec : 10 ^ prec < 2 ^ 300 - 1) (hw : ∀ o ∈ os, Wf o)
+    (hg : OnGrid os prec) (p : Int) (h : findMatchPrice (makeView (newBook os)) prec = some p) :
+    ∃ ls hb, (makeView (newBook os)).lowestSellPrice = some ls ∧ (makeView (newBook os)).highestBuyPrice = some hb ∧
+      ls ≤ p ∧ p ≤ hb ∧ 0 < p ∧ isTick p prec = true ∧ monMatchPrice (makeView (newBook os)) prec p = true := by
+  obtain ⟨hb, ls, hhb, hls, hc⟩ := findMatchPrice_some_inv _ prec p h
+  obtain ⟨k, a, b, hf, ha, hb', hak, hkb⟩ :=
+    findMatchPrice_crossing _ prec hprec (makeView_ok os prec hw hg) hb ls hhb hls hc
+  rw [hf] at h; cases h
+  have h1 : ls ≤ ((T prec k : Nat) : Int) := by rw [ha]; exact_mod_cast T_mono prec hak
+  have h2 : ((T prec k : Nat) : Int) ≤ hb := by rw [hb']; exact_mod_cast T_mono prec hkb
+  have h3 : (0 : Int) < ((T prec k : Nat) : Int) := by
+    have := T_pos prec k
+    have : 0 < T prec k := Nat.lt_of_lt_of_le (Nat.pow_pos (by omega)) this
+    exact_mod_cast this
+  refine ⟨ls, hb, hls, hhb, h1, h2, h3, isTick_T prec k, ?_⟩
+  unfold monMatchPrice
+  rw [hhb, hls]
+  have hTpos : 0 < T prec k := by exact_mod_cast h3
+  simp [h1, h2, hTpos, isTick_T prec k]
+
+/-- **found ⇔ the book crosses** (there is a buy and a sell, and the highest buy price is not below the lowest sell price) -/
+theorem found_price_iff_crossing (os : List Order) (prec : Nat) (hprec : 10 ^ prec < 2 ^ 300 - 1)
+    (hw : ∀ o ∈ os, Wf o) (hg : OnGrid os prec) :
+    (findMatchPrice (makeView (newBook os)) prec).isSome = monCrossing (makeView (newBook os)) := by
+  cases hf : findMatchPrice (makeView (newBook os)) prec with
+  | some p =>
+    obtain ⟨hb, ls, hhb, hls, hc⟩ := findMatchPrice_some_inv _ prec p hf
+    unfold monCrossing; rw [hhb, hls]; simp [hc]
+  | none =>
+    unfold monCrossing
+    cases hhb : (makeView (newBook os)).highestBuyPrice with
+    | none => simp
+    | some hb =>
+      cases hls : (makeView (newBook os)).lowestSellPrice with
+      | none => simp
+      | some ls =>
+        simp only [Option.isSome_none]
+        by_cases hc : ls ≤ hb
+        · obtain ⟨k, _, _, hf', _⟩ :=
+            findMatchPrice_crossing _ prec hprec (makeView_ok os prec hw hg) hb ls hhb hls hc
+          rw [hf] at hf'; cases hf'
+        · simp [hc]
+
+/-- **at a found match price both sides of the book offer a positive amount** (amounts as the order-book view counts them:
+every order's matchable amount at its OWN price) -/
+theorem found_price_amounts_positive (os : List Order) (prec : Nat) (hprec : 10 ^ prec < 2 ^ 300 - 1)
+    (hw : ∀ o ∈ os, Wf o) (hg : OnGrid os prec) (p : Int) (h : findMatchPrice (makeView (newBook os)) prec = some p) :
+    0 < (makeView (newBook os)).buyAmountOver p ∧ 0 < (makeView (newBook os)).sellAmountUnder p := by
+  obtain ⟨ls, hb, hls, hhb, h1, h2, _⟩ := found_price_in_spread os prec hprec hw hg p h
+  have hv := makeView_ok os prec hw hg
+  exact ⟨(View.buy_pos_iff hv hb hhb p).mpr h2, (View.sell_pos_iff hv ls hls p).mpr h1⟩
+
+/-- …but NOT necessarily a positive `MatchableAmount` at the match price itself: a buy of 1 @ 2.0 and a sell of 3 @ 0.4
+cross, `FindMatchPrice` answers 0.4, and at 0.4 the buyer's one unit is worth ⌊0.4⌋ = 0 quote units, so `MatchableAmount`
+is 0 and `MatchAtSinglePrice` matches nothing (harmless: the batch simply does not trade; ~1.7 % of the generated
+first batches with a found price). -/
+theorem found_price_unmatchable_counterexample :
+    let b : Order := { id := 0, kind := 2, oid := 0, dir := .buy, price := 2000000000000000000, amount := 1, offer := 2,
+                       opn := 1, paid := 0, received := 0, batchId := 0 }
+    let s : Order := { id := 1, kind := 2, oid := 0, dir := .sell, price := 400000000000000000, amount := 3, offer := 3,
+                       opn := 3, paid := 0, received := 0, batchId := 0 }
+    findMatchPrice (makeView (newBook [b, s])) 1 = some 400000000000000000 ∧
+    totalMatchable [b] 400000000000000000 = 0 ∧ matchFirstBatch (newBook [b, s]) 1 = .noMatch := by
+  set_option maxRecDepth 20000 in
+  refine ⟨by decide, by decide, by decide⟩
+
+/-- the keeper's first batch (`FindMatchPrice` then `MatchAtSinglePrice` at the price the MODEL finds): never a panic; every
+order of the result is an input order with the facts of `Delta` — **limit_respected** (`Delta.buy_price`, `Delta.sell_price`,
+`Delta.wf`, `Delta.positive`) no longer for an arbitrary fed price but for the price `FindMatchPrice` returns -/
+theorem limit_respected_first_batch (os : List Order) (prec : Nat) (hprec : 10 ^ prec < 2 ^ 300 - 1)
+    (hw : ∀ o ∈ os, Wf o) (hg : OnGrid os prec) :
+    matchFirstBatch (newBook os) prec = .noMatch ∨
+    ∃ b' q, matchFirstBatch (newBook os) prec = .ok b' q ∧ ∀ o' ∈ b'.orders, ∃ o ∈ os, Delta o o' := by
+  unfold matchFirstBatch
+  cases hf : findMatchPrice (makeView (newBook os)) prec with
+  | none => left; rfl
+  | some p =>
+    obtain ⟨_, _, _, _, _, _, hp, _⟩ := found_price_in_spread os prec hprec hw hg p hf
+    exact single_delta os hw p hp
+
+/-- **price_uniform**: in the first batch every order is either untouched or filled exactly ONCE, for some amount `a > 0`
+within `MatchableAmount`, at the ONE price `p` that `FindMatchPrice` returned — a buyer pays `⌈p·a⌉` and receives `a`, a seller
+pays `a` and receives `⌊p·a⌋` (`fill_price_booked`), and `p` is within every filled order's limit -/
+theorem price_uniform_first_batch (os : List Order) (prec : Nat) (hprec : 10 ^ prec < 2 ^ 300 - 1)
+    (hw : ∀ o ∈ os, Wf o) (hg : OnGrid os prec) (b' : Book) (q : Int)
+    (h : matchFirstBatch (newBook os) prec = .ok b' q) :
+    ∃ p, findMatchPrice (makeView (newBook os)) prec = some p ∧
+      ∀ o' ∈ b'.orders, ∃ o ∈ os, o' = o ∨ ∃ a, GoodFill o a p ∧ o' = (fillRaw o a p).1 := by
+  unfold matchFirstBatch at h
+  cases hf : findMatchPrice (makeView (newBook os)) prec with
+  | none => rw [hf] at h; cases h
+  | some p =>
+    rw [hf] at h
+    simp only at h
+    obtain ⟨_, _, _, _, _, _, hp, _⟩ := found_price_in_spread os prec hprec hw hg p hf
+    refine ⟨p, rfl, ?_⟩
+    rcases matchAtSinglePrice_at (newBook os) p hp (newBook_ok os hw) with h0 | ⟨b2, q2, h2, r1, r2⟩
+    · rw [h0] at h; cases h
+    · rw [h2] at h; cases h
+      intro o' ho'
+      unfold Book.orders at ho'
+      rcases List.mem_append.mp ho' with hm | hm
+      · obtain ⟨o, ho, r⟩ := ticksAt_orders r1 hm
+        exact ⟨o, mem_newBook os o (by unfold Book.orders; exact List.mem_append_left _ ho), r⟩
+      · obtain ⟨o, ho, r⟩ := ticksAt_orders r2 hm
+        exact ⟨o, mem_newBook os o (by unfold Book.orders; exact List.mem_append_right _ ho), r⟩
+
+/-- non-vacuity: the example book is on the grid of precision 1 (0.9 and 1.1 are the ticks of index 1520 and 1531), crosses, and its first
+batch trades at the tick 1.1 (the demand 15000 exceeds the supply 12000 up to there) -/
+example : findMatchPrice (makeView (newBook exOrders)) 1 = some 1100000000000000000 ∧
+    (match matchFirstBatch (newBook exOrders) 1 with | .ok _ _ => true | _ => false) = true ∧
+    T 1 1520 = 900000000000000000 ∧ T 1 1531 = 1100000000000000000 := by
+  set_option maxRecDepth 20000 in
+  refine ⟨by decide, by decide, by decide, by decide⟩
 
 end Comdex.C05
